@@ -2,11 +2,13 @@
   C10 — Compilation preserves the structure of the hierarchy.
   Proved for the model's `_compile` (on the tree whose children are already in processing order): names, nesting, types,
   ports with directions, connections are preserved exactly; resources of a non-repeated node keep their names and types;
-  default propagation only ADDS additive/multiplicative resources that some child has.  The reordering of children
-  (`sortTree`) and the port-variable stage only permute lists; that part is covered by the correspondence
+  default propagation only ADDS additive/multiplicative resources that some child has.  The reordering of children that precedes
+  it (`sortTree`, by `sorted_children_order`) keeps every child exactly once (C10_reordering_loses_no_child, from the correctness
+  of the model of graphlib's static_order).  That the port-variable stage only permutes ports is covered by the correspondence
   (harness/pipeline.compare_trees) and the oracle of harness/props/c10.py.
 -/
 import BartiqProofs.CompileSpec
+import BartiqProofs.SortTreeLemmas
 namespace Bartiq
 
 /-- structure of a node: name, type, non-output ports, output ports (name and direction), connections, children -/
@@ -187,5 +189,13 @@ theorem C10_propagation_only_adds (r : Routine) :
     · exact hM x h
   have := Resource.foldl_set_prefix _ r.resources hextra []
   simpa using this
+
+/-- **exactly the routines of the source**: whatever order `sorted_children_order` computes for a routine whose children have
+    distinct names, whose listed order mentions exactly them and whose child-to-child connections mention only them, re-ordering
+    the children by it yields a permutation of the children — none dropped, none duplicated -/
+theorem C10_reordering_loses_no_child (ch : List Routine) (ord : List String) (conns : List (Endpoint × Endpoint)) (o : List String)
+    (hn : (ch.map (·.name)).Nodup) (ho : ord.Perm (ch.map (·.name))) (hin : InnerEndpointsIn (ch.map (·.name)) conns)
+    (h : sortedChildrenOrder (ch.map (·.name)) ord conns = .ok o) : (reorder (·.name) ch o).Perm ch :=
+  reorder_perm (·.name) ch o hn (sortedChildrenOrder_perm _ ord conns o hn ho hin h)
 
 end Bartiq
